@@ -57,7 +57,8 @@ class Inst:
         self.ver = dict(ver_bytes or {v: default_vers[v] for v in vers})
         self.cid = {c: hashlib.new(self.h, b).hexdigest() for c, b in self.content.items()}
         for k, x in enumerate(extras):
-            self.cid[x] = hashlib.new(self.h, b"never-stored-%d" % k).hexdigest()
+            # (upper-case hex: a cid is the string the caller gives, whatever its spelling)
+            self.cid[x] = hashlib.new(self.h, b"never-stored-%d" % k).hexdigest().upper()
         self.extras = list(extras)
         # reverse tables
         self.cid_rev = {v: k for k, v in self.cid.items()}
